@@ -198,8 +198,45 @@ def rule_R3_cells_body(text, fields, log):
     return out
 
 
+def _if_header_end(out, mask, j):
+    """offset of the `{` that opens the block of the `if` whose condition starts at j"""
+    depth = 0
+    while j < len(out):
+        if mask[j]:
+            c = out[j]
+            if c in '([':
+                depth += 1
+            elif c in ')]':
+                depth -= 1
+            elif c == '{' and depth == 0:
+                return j
+        j += 1
+    raise Unsupported('R4: if without block')
+
+
+def _if_chain_end(out, mask, ifpos):
+    """end offset (exclusive) of `if .. {..} [else if .. {..}]* [else {..}]` starting at ifpos"""
+    ob = _if_header_end(out, mask, ifpos + 2)
+    cb = match_brace(out, mask, ob)
+    k = cb + 1
+    while k < len(out) and (out[k].isspace() or not mask[k]):
+        k += 1
+    if out[k:k + 4] == 'else' and not (out[k + 4].isalnum() or out[k + 4] == '_'):
+        e0 = k + 4
+        while out[e0].isspace():
+            e0 += 1
+        if out[e0] == '{':
+            return match_brace(out, mask, e0) + 1
+        if out[e0:e0 + 2] == 'if':
+            return _if_chain_end(out, mask, e0)
+        raise Unsupported('R4: else followed by neither block nor if')
+    return cb + 1
+
+
 def rule_R4_letchains(text, log):
-    """if let P = E && C { A } [else { B }]  ->  if let P = E { if C { A } [else { B }] } [else { B }]"""
+    """let chains: `if C1 && C2 .. { A } [else B]` where some Ci is `let P = E`
+       ->  `if C1 { if C2 .. { A } [else B'] } [else B']`   (B' = B, wrapped in braces when B is an else-if chain)
+    applied until no `if` header mixes `&&` with a `let`"""
     out = text
     guard = 0
     while True:
@@ -208,13 +245,13 @@ def rule_R4_letchains(text, log):
             raise Unsupported('R4 did not terminate')
         mask = code_mask(out)
         hit = None
-        for mm in re.finditer(r'\bif\s+let\b', out):
+        for mm in re.finditer(r'\bif\b', out):
             if not mask[mm.start()]:
                 continue
-            # header end: first '{' at depth 0
             depth = 0
             j = mm.end()
             amp = None
+            has_let = False
             while j < len(out):
                 if mask[j]:
                     c = out[j]
@@ -224,10 +261,16 @@ def rule_R4_letchains(text, log):
                         depth -= 1
                     elif c == '{' and depth == 0:
                         break
+                    elif c == ';' and depth == 0:
+                        break
                     elif c == '&' and depth == 0 and out[j:j + 2] == '&&' and amp is None and out[j - 1] != '&':
                         amp = j
+                    elif depth == 0 and out[j:j + 4] == 'let ' and not (out[j - 1].isalnum() or out[j - 1] == '_'):
+                        has_let = True
                 j += 1
-            if amp is not None:
+            if j >= len(out) or out[j] != '{':
+                continue
+            if amp is not None and has_let:
                 hit = (mm, amp, j)
                 break
         if hit is None:
@@ -247,15 +290,19 @@ def rule_R4_letchains(text, log):
             e0 = k + 4
             while out[e0].isspace():
                 e0 += 1
-            if out[e0] != '{':
-                raise Unsupported('R4: else-if after let-chain')
-            e1 = match_brace(out, mask, e0)
-            els = ' else ' + out[e0:e1 + 1]
-            end = e1 + 1
-        # keep newlines between `first` and `rest` inside rest text
+            if out[e0] == '{':
+                e1 = match_brace(out, mask, e0)
+                els = ' else ' + out[e0:e1 + 1]
+                end = e1 + 1
+            elif out[e0:e0 + 2] == 'if':
+                e1 = _if_chain_end(out, mask, e0)
+                els = ' else { ' + out[e0:e1] + ' }'
+                end = e1
+            else:
+                raise Unsupported('R4: else followed by neither block nor if')
         pad = out[len(first) + mm.start():amp]
-        new = first + pad.replace('&&', '') + ' { if' + rest + body + _blank(els) .replace(' ', '') * 0 + (els if els else '') + ' }' + (norm_ws(els) if els else '')
-        # line preservation: `els` is emitted twice; second copy is whitespace-normalised to one line
+        # line preservation: `els` is emitted twice; the second copy is whitespace-normalised to one line
+        new = first + pad.replace('&&', '') + ' { if' + rest + body + (els if els else '') + ' }' + (norm_ws(els) if els else '')
         log.append(('R4', norm_ws(out[mm.start():ob])[:100], norm_ws(first + ' { if' + rest)[:100]))
         out = out[:mm.start()] + new + out[end:]
 
